@@ -173,6 +173,20 @@ def run_case(case):
     return CaseResult(discs, tags, any(nt for _, nt in subcases), "%d triples over %d widths" % (evals, len(case["widths"])), evals=max(evals, 1), subcases=subcases)
 
 
+def extra_phases(coll, tier, seed_value, shard, nshards):
+    """Every width 40..200 (one child process each) on a small batch: breakage that needs one exact width is reached."""
+    from ..runner import hyp_survey
+
+    if shard != 0:
+        return
+    saved = dict(_CFG)
+    try:
+        _CFG.update(irs=3, widths=["unset"] + list(range(40, 201)))
+        hyp_survey(mod(), coll, "core", None, 1 if tier == "quick" else 6, (seed_value + 4242) % (2 ** 32))
+    finally:
+        _CFG.update(saved)
+
+
 MINIMISE_EVALS = {"quick": 2, "thorough": 10}
 
 
